@@ -14,7 +14,7 @@ CKTYPES = [ChecksumType.CRC_32, ChecksumType.CRC_32C, ChecksumType.NULL_CHECKSUM
 
 
 def setup(ctx, w, M, id_w, seq_w, K=0, modes=(ACK, UNACK), cktypes=CKTYPES, limits=2, shapes=("file", "dir", "existing", "dir_existing"),
-          faults=("deliver", "drop", "dup"), fixed=None):
+          faults=("deliver", "drop", "dup"), fixed=None, overrides=False, fault_table=None):
     fixed = fixed or {}
     ids = Ids(id_w, seq_w)
     mode = ctx.pick("mode", list(modes))
@@ -39,11 +39,21 @@ def setup(ctx, w, M, id_w, seq_w, K=0, modes=(ACK, UNACK), cktypes=CKTYPES, limi
     ctx.assume(S <= M * seg)
     dst_name = "/dst" if shape in ("dir", "dir_existing") else "/dst/file.bin"
     sysm = hsys.System(ctx, w, ids=ids, mode=mode, closure=closure, cktype=ck, crc=crc, imm=imm, seg_len=L,
-                       max_packet_len=P, limits=limits, S=S, M=M, K=K, dst_name=dst_name, faults=faults)
+                       max_packet_len=P, limits=limits, S=S, M=M, K=K, dst_name=dst_name, faults=faults,
+                       fault_table=fault_table)
     if shape in ("dir", "dir_existing"):
         sysm.dst.fs.add_dir("/dst")
     if shape in ("existing", "dir_existing"):
         sysm.dst.fs.add_plain_file("/dst/file.bin", ctx.int("old_len", 0, 64))
+    if overrides:
+        # request-level mode / closure override the remote entity configuration
+        pm = ctx.pick("put_mode", [None, ACK, UNACK])
+        pc = ctx.pick("put_closure", [None, False, True])
+        sysm.put_mode, sysm.put_closure = pm, pc
+        if pm is not None:
+            sysm.mode = mode = pm
+        if pc is not None:
+            sysm.closure = closure = pc
     cfg = dict(mode=mode, closure=closure, ck=ck, crc=crc, imm=imm, shape=shape, S=S, seg=seg, P=P)
     return sysm, cfg
 
@@ -81,11 +91,14 @@ def harness(ctx, M, id_w, seq_w, pace="const"):
     w.witness = x
     if pace == "const":
         sysm, cfg = setup(ctx, w, M, id_w, seq_w)
+    elif pace == "overrides":
+        sysm, cfg = setup(ctx, w, M, id_w, seq_w, cktypes=[ChecksumType.CRC_32], shapes=("file",),
+                          fixed={"crc": False, "use_L": False}, overrides=True)
     else:
         sysm, cfg = setup(ctx, w, M, id_w, seq_w, cktypes=[ChecksumType.CRC_32], shapes=("file",))
     o = sysm.start()
     ctx.prop("put_accepted", o.exc is None and o.ret is True)
-    if pace == "const":
+    if pace in ("const", "overrides"):
         ps, pd = ctx.choice("pace_src", 3), ctx.choice("pace_dst", 3)
         pacing = lambda who, r: ps if who == "src" else pd  # noqa: E731
     else:
@@ -114,9 +127,14 @@ def h_metadata_only(ctx, id_w, seq_w):
     sysm = hsys.System(ctx, w, ids=ids, mode=mode, closure=closure, S=0)
     sysm.src_name = None
     sysm.dst_name = None
+    sysm.put_mode = ctx.pick("put_mode", [None, ACK, UNACK])
+    sysm.put_closure = ctx.pick("put_closure", [None, False, True])
+    if sysm.put_mode is not None:
+        sysm.mode = sysm.put_mode
+    ps, pd = ctx.choice("pace_src", 2), ctx.choice("pace_dst", 2)
     o = sysm.start()
     ctx.prop("put_accepted", o.exc is None and o.ret is True, lambda: {"sig": rigs.exc_name(o.exc)})
-    done = sysm.run(10)
+    done = sysm.run(10, pacing=lambda who, r: ps if who == "src" else pd)
     ctx.prop("no_api_call_raises", not sysm.exceptions,
              lambda: {"sig": f"{sysm.exceptions[0][0]}: {rigs.exc_sig(sysm.exceptions[0][1].exc)}"})
     ctx.prop("runs_to_completion", sysm.src.idle and sysm.dst.idle,
@@ -140,15 +158,17 @@ def plan(tier):
                           twin_share=0.02, obligations=["mode=0", "mode=1"]))
     specs.append(Spec("fault-free/per-round-pacing/M=1/w2.2", "vf.harness.c02:harness",
                       {"M": 1, "id_w": 2, "seq_w": 2, "pace": "round"}, twin_share=0.02))
+    specs.append(Spec("fault-free/request-overrides/M=1/w2.2", "vf.harness.c02:harness",
+                      {"M": 1, "id_w": 2, "seq_w": 2, "pace": "overrides"}, twin_share=0.02))
     specs.append(Spec("metadata-only/w2.2", "vf.harness.c02:h_metadata_only", {"id_w": 2, "seq_w": 2}, twin_share=1.0))
     return specs
 
 
 BOUNDS = {
-    "quick": "fault-free FIFO link; mode x closure x 4 checksum types x PDU CRC flag x immediate/deferred NAK x destination given as file / existing directory / pre-existing file / directory already containing the file, max_file_segment_len None or symbolic, max_packet_len and file size symbolic with at most M=2 segments (widths (2,2)) / M=1 (widths (1,1),(8,4)); pacing: 0..2 extra packet-less state-machine calls per side before every delivery (constant per run), plus a run with an independent 0/1 choice per side in each of the first 3 rounds (CRC-32, plain file); metadata-only put request",
+    "quick": "fault-free FIFO link; mode x closure x 4 checksum types x PDU CRC flag x immediate/deferred NAK x destination given as file / existing directory / pre-existing file / directory already containing the file, max_file_segment_len None or symbolic, max_packet_len and file size symbolic with at most M=2 segments (widths (2,2)) / M=1 (widths (1,1),(8,4)); pacing: 0..2 extra packet-less state-machine calls per side before every delivery (constant per run), plus a run with an independent 0/1 choice per side in each of the first 3 rounds (CRC-32, plain file); a run with request-level overrides of mode and closure (None/each value; CRC-32, plain file); metadata-only put request with the same overrides and pacing 0/1",
     "thorough": "all 12 width pairs, M=3 for (2,2), M=2 for (1,1),(8,4), M=1 otherwise",
 }
-OUTSIDE = "more than M segments (the per-segment step is uniform, but that is an argument, not a verdict); byte-level serialisation is exercised on the concrete representative of sampled paths only; TLV options; request-level mode/closure overrides (C19)"
+OUTSIDE = "more than M segments (the per-segment step is uniform, but that is an argument, not a verdict); byte-level serialisation is exercised on the concrete representative of sampled paths only; TLV options"
 FUNCTIONS = ["SourceHandler.put_request/state_machine/get_next_packet (whole sender FSM)", "DestHandler.state_machine/get_next_packet (whole receiver FSM)",
              "acknowledge_inactive_eof_pdu", "get_packet_destination"]
 EXPLANATION = "Closed system: both real handlers exchange deep-copied PDUs over FIFO queues; sizes and lengths are symbolic, configuration dimensions are solver-forked; content identity at a symbolic witness index."
